@@ -279,7 +279,8 @@ def in_dfrag(case):
         if k == 'not':
             return cok(c[1])
         if k == 'sub':
-            return cok(c[2]) and all(tok(t) for t in c[1])
+            # (the(...) in condition position yields ONE false row where an(...) yields one per inner false row: sets only)
+            return cok(c[2]) and all(tok(t) for t in c[1]) and not (len(c) > 3 and c[3] == 'the')
         if k == 'forall':
             return len(c) == 3 and cok(c[2])          # (a universal EXPRESSION is read as its variable by the models: sets only)
         return False
